@@ -297,3 +297,63 @@ def feasible_with(lp, extra_bounds):
         if lp2.lo[j] is not None and lp2.hi[j] is not None and lp2.lo[j] > lp2.hi[j]:
             return False
     return lp2.solve({}, "min").status == "optimal"
+
+
+def room_bands(ref, delta, eps):
+    out = {}
+    for rid, w in ref.items():
+        w = fr(float(w))
+        d, e = fr(delta), fr(eps)
+        out[rid] = (w - d * abs(w) - e, w + d * abs(w) + e)
+    return out
+
+
+def room_exact(P, ref, delta=0.03, eps=0.001, max_k=4):
+    """Minimal number of fluxes outside [w_l, w_u] over P (documented ROOM objective).
+    Returns the count, "infeasible" or None (not decided within max_k)."""
+    import itertools
+
+    if P.lp.solve({}, "min").status != "optimal":
+        return "infeasible"
+    bands = room_bands(ref, delta, eps)
+    # reactions whose whole bound range lies in the band can never be outside
+    cand = []
+    for rid in P.rids:
+        j = P.col[rid]
+        lo, hi = P.lp.lo[j], P.lp.hi[j]
+        wl, wu = bands[rid]
+        if lo is not None and hi is not None and lo >= wl and hi <= wu:
+            continue
+        cand.append(rid)
+    for k in range(0, min(max_k, len(cand)) + 1):
+        for outside in itertools.combinations(cand, k):
+            eb = {}
+            for rid in P.rids:
+                if rid in outside:
+                    continue
+                wl, wu = bands[rid]
+                eb[P.col[rid]] = (wl, wu)
+            if feasible_with(P.lp, eb):
+                return k
+    return None
+
+
+def room_linear_exact(P, ref):
+    """Documented linear relaxation with delta = eps = 0."""
+    lp = P.copy_lp()
+    ys = []
+    for rid in P.rids:
+        j = P.col[rid]
+        w = fr(float(ref[rid]))
+        lo, hi = lp.lo[j], lp.hi[j]
+        if lo is None or hi is None:
+            return None
+        y = lp.add_var(0, 1)
+        # v - y (ub - w) <= w ;  v - y (lb - w) >= w
+        lp.add_row({j: 1, y: -(hi - w)}, None, w)
+        lp.add_row({j: 1, y: -(lo - w)}, w, None)
+        ys.append(y)
+    r = lp.solve({y: 1 for y in ys}, "min")
+    if r.status != "optimal":
+        return "infeasible"
+    return r.obj
